@@ -139,6 +139,38 @@ def check(ctx):
                 bad("isoelastic loss is not monotone", "iso:monotone", rx=rx, ry=ry)
             if rm > float(lam_t) * rx + (1 - float(lam_t)) * rz + rt:
                 bad("isoelastic loss is not convex", "iso:convex", rx=rx, rz=rz, rmix=rm)
+    # ---- columns of one tensor are independent samples: the value of column j of a batch equals the
+    # value of column j alone (monotonicity/bounds then hold column-wise)
+    for it in range(60 if ctx.tier == "quick" else 900):
+        which = g.choice(["es", "erm", "qcvar"])
+        smp = gen_sample(g, M=g.choice([2, 3]), kind="mixed")
+        N, M = smp["N"], smp["M"]
+        x = torch.tensor([[float(smp["cols"][m][i]) for m in range(M)] for i in range(N)], dtype=dt)
+        if which == "es":
+            crit = nn.ExpectedShortfall(g.choice([0.1, 0.5, 0.3]))
+        elif which == "erm":
+            crit = nn.EntropicRiskMeasure(g.choice([0.25, 1.0]))
+        else:
+            crit = nn.QuadraticCVaR(g.choice([1.0, 10.0]))
+        case = {"which": which + "_batch", "N": N, "M": M, "cols": enc_rat(smp["cols"])}
+        ctx.case(case, True, tag=which + "_batch")
+        ctx.traces += 1
+        with torch.no_grad():
+            whole = [float(v) for v in crit(x).tolist()]
+            alone = [float(crit(x[:, j])) for j in range(M)]
+        for j in range(M):
+            col = smp["cols"][j]
+            tolb = 1e-9 * max(1.0, abs(alone[j]))
+            narrow = False
+            if which == "qcvar":
+                spread = max(float(max(c) - min(c)) for c in smp["cols"]) + 2e-8
+                tolb += crit.lam * (10 * 1e-6 * 10 ** int(math.log10(spread))) ** 2
+                narrow = any(float(max(c)) - float(sum(c) / len(c)) < 1 / (2 * crit.lam) for c in smp["cols"])
+            if not (abs(whole[j] - alone[j]) <= tolb) or not math.isfinite(whole[j]):
+                ctx.fail("the risk of one column of a batch differs from the risk of that column alone (columns are independent samples)",
+                         case | {"column": j}, key="quadratic_cvar:bracket-misses-root" if narrow else f"{which}:batch-column",
+                         detail={"in_batch": whole[j], "alone": alone[j]})
+                break
     try:
         outs = ctx.driver(reqs)
     except DriverBroken as e:
